@@ -6,6 +6,7 @@ import Driver.Wire
 import KodaModel.Cache
 import KodaModel.Render
 import KodaModel.Schema
+import KodaModel.SchemaEval
 import KodaModel.Signature
 
 open Lean (Json)
@@ -133,6 +134,57 @@ partial def jJ : J → Json
   | .arr xs => Json.mkObj [("a", Json.arr (xs.map jJ).toArray)]
   | .obj kvs => Json.mkObj [("o", Json.arr (kvs.map (fun p => Json.arr #[natsJ p.1, jJ p.2])).toArray)]
   | .nonjson v => Json.mkObj [("x", valJ v)]
+
+/-- inverse of `jJ` -/
+partial def getJ (j : Json) : D J := do
+  match j with
+  | .null => pure .null
+  | .bool b => pure (.bool b)
+  | _ =>
+    match fldOpt j "i" with
+    | some i => pure (.int (← i.getInt?))
+    | none =>
+    match fldOpt j "f" with
+    | some f => do
+      match ← getVal f with
+      | .float x => pure (.float x)
+      | _ => throw "bad float in schema"
+    | none =>
+    match fldOpt j "s" with
+    | some _ => pure (.str (← natList j "s"))
+    | none =>
+    match fldOpt j "a" with
+    | some a => do pure (.arr (← (← a.getArr?).toList.mapM getJ))
+    | none =>
+    match fldOpt j "o" with
+    | some o => do
+      let kvs ← (← o.getArr?).toList.mapM (fun e => do
+        let p ← e.getArr?
+        if p.size ≠ 2 then throw "bad schema member"
+        let k ← (← p[0]!.getArr?).toList.mapM (fun x => x.getNat?)
+        pure (k, ← getJ p[1]!))
+      pure (.obj kvs)
+    | none =>
+    match fldOpt j "x" with
+    | some x => do pure (.nonjson (← getVal x))
+    | none => throw "bad schema value"
+
+/-- evaluate a schema (as the real library produced it) on JSON data -/
+def handleEvalSchema (j : Json) : D Json := do
+  let s ← getJ (← fld j "schema")
+  let ref : Option (List Nat) ← match fldOpt j "ref" with
+    | none => pure none
+    | some _ => do pure (some (← natList j "ref"))
+  let fuel ← match fldOpt j "fuel" with
+    | some f => f.getNat?
+    | none => pure 200
+  let xs ← (← (← fld j "xs").getArr?).toList.mapM getVal
+  let outs := xs.map (fun x =>
+    if !isJson x then Json.mkObj [("notJson", true)]
+    else match evalSchema s ref fuel s x with
+      | some b => Json.mkObj [("ok", b)]
+      | none => Json.mkObj [("undetermined", true)])
+  pure (Json.mkObj [("outs", Json.arr outs.toArray)])
 
 /-- printer tables: `[[value, text|null], …]` keyed by the canonical JSON of the value -/
 def getPrintTable (j : Json) (k : String) : D (List (String × Option (List Nat))) :=
@@ -264,6 +316,7 @@ def handle (line : String) : Json :=
       | "pred" => handlePred j
       | "render" => handleRender j
       | "schema" => handleSchema j
+      | "evalschema" => handleEvalSchema j
       | "derive" => handleDerive j
       | "wrap" => handleWrap j
       | "proc" => handleProc j
